@@ -71,6 +71,7 @@ type Config struct {
 	ChainInvalid    bool     // the on-chain version is the hash of manifest I (so that I passes the version check and fails the structural one)
 	Mode            string   // "" = the C20 oracle; "c10v" = the version-protocol oracle of C10 (checkVersion) only
 	UpperOwner      bool     // the provider record spells its owner address in upper case (legal bech32; Address() is the same account); all event ids stay canonical
+	First           bool     // scheduling only: start this configuration's worker processes before all others (big sharded explorations)
 	PreLease        bool     // lease 1 exists before the service starts (fetchExistingLeases / managePreExistingLease)
 	NoQuit          bool     // the environment always fires the whole menu (default: it may stop after any prefix)
 	Budgets         string   // "p,e;p,e;..." iterative deviation bounding
